@@ -303,7 +303,8 @@ def shard_handed_to(shard, seed, n):
                 how = rnd.choice(["is_sat", "is_valid", "is_unsat", "get_model"])
                 lg = rnd.choice([None, AUTO])
                 try:
-                    getattr(env.factory, how)(f, solver_name="gen", logic=lg)
+                    # by name, or by preference (the generic solver is the only one installed)
+                    getattr(env.factory, how)(f, solver_name=rnd.choice(["gen", None]), logic=lg)
                 except Exception:
                     pass
             sent = None
